@@ -67,6 +67,9 @@ def run(ctx: Ctx, env):
             return tm, irt, [node], {}, None
 
         paths = interp.explore(setup)
+        from .common import check_shared_caches
+        check_shared_caches(ctx, paths, "R5.no-cached-types", "the type inferred for one call is reported for a later, different call of the same function",
+                            "substring('abc', 1) then substring((1, 2), 1)")
         n_rows += 1
         want = O.ODATA_FUNCTION_RETURN.get(full) if arity else None
         key = full
